@@ -241,7 +241,10 @@ def check_dispatch(ctx, ci, f, hp, hpp, pfun, second):
                                                                   f"self.{hpp} if self.{hpp} is not None else dict()", f"self.{hpp} or {{}}")
             if not okd:
                 probs.append(f"**{pname} is not self.{hpp} (or an empty dict when None)")
-    if probs:
+    recognised = bool(callb) or bool(pk)
+    if probs and not recognised:
+        ctx.unrecognised("C11-b", qn, "neither a callable(...) branch nor a scikit-learn pairwise call was found")
+    elif probs:
         ctx.violation("C11-b", unit.relpath, qn, norm_src(pk[0])[:160] if pk else "dispatch", "; ".join(probs), line=f.lineno, site=qn)
     else:
         ctx.ok("C11-b", qn, f"callable / {'precomputed / ' if not second else ''}{pfun}(metric=self.{hp}, **{hpp})")
@@ -255,7 +258,7 @@ def check_kauri_kernel(ctx, kauri, f):
     unit, qn = kauri.unit, "Kauri._compute_kernel"
     pre = [s for s in ast.walk(f) if isinstance(s, ast.If) and norm_src(s.test) == "self.kernel == 'precomputed'"]
     if not pre:
-        ctx.violation("C11-b", unit.relpath, qn, "precomputed", "no precomputed branch", line=f.lineno, site=qn)
+        ctx.unrecognised("C11-b", qn, "no `self.kernel == 'precomputed'` branch")
         return
     p = pre[0]
     inner = [s for s in p.body if isinstance(s, ast.If) and norm_src(s.test) == "y is None"]
